@@ -1,1 +1,132 @@
-From VP Require Import Base.Tactics Zdd.Model.
+(* Property theorems for C06 (set-family algebra) and C07 (canonicity, gc,
+   iteration) of crates/varpulis-zdd.  Nothing but statements closed by [exact].
+   The statements are pinned again in coq/audit/C06.v and coq/audit/C07.v.
+
+   Vocabulary:  In_fam t r s   "the strictly ascending list s is a member of the
+   family denoted by ref r in table t";  spec_run / spec_step: the same operation
+   sequence on explicit families (predicates on lists);  aruns: the interpreter
+   that the correspondence check evaluates against the real ZddArena. *)
+From Coq Require Import String.
+From VP Require Import Base.Tactics Zdd.Model Zdd.Run Zdd.ProofsBase Zdd.ProofsOps Zdd.ProofsPwo Zdd.ProofsPwoTotal
+  Zdd.ProofsQuery Zdd.ProofsArena Zdd.ProofsSeq Zdd.ProofsStandalone.
+Close Scope string_scope.
+Open Scope list_scope.
+
+(* ------------------------------------------------------------------ C06 *)
+
+(* Every operation sequence on the shared arena (constructors, union, intersection,
+   difference, extend-with-optional, count, gc), of any length over any variables:
+   whenever the explicit-set semantics is defined (handle indices in range) the
+   arena run returns (no panic, fuel suffices) and every handle denotes exactly
+   the explicit family; and the arena run is defined only then. *)
+Theorem C06_arena_sequences : forall ops fs',
+  spec_run [] ops = Some fs' ->
+  exists ar hs out, aruns (arena0, []) ops [] = Some (ar, hs, out) /\ AInv ar /\ Rel ar hs fs'.
+Proof. intros ops fs' H. exact (aruns_refines ops arena0 [] [] fs' [] AInv0 (Forall2_nil _) H). Qed.
+
+Theorem C06_arena_sequences_conv : forall ops ar hs out,
+  aruns (arena0, []) ops [] = Some (ar, hs, out) ->
+  AInv ar /\ exists fs', spec_run [] ops = Some fs' /\ Rel ar hs fs'.
+Proof. intros ops ar hs out H. exact (aruns_reachable ops arena0 [] [] [] ar hs out AInv0 (Forall2_nil _) H). Qed.
+
+(* count = cardinality of the explicit family *)
+Theorem C06_count : forall ar h F, AInv ar -> denotes ar h F ->
+  exists c l, count_f (S (length (atable ar))) (atable ar) h = Some c /\ c = N.of_nat (length l) /\
+    NoDup l /\ forall s, In s l <-> F s.
+Proof. exact count_refines. Qed.
+
+(* membership query (on the sorted, deduplicated element list, as the public contains does) *)
+Theorem C06_contains : forall t r elems, wf t -> valid t r ->
+  exists b, contains_f (S (length t)) t r (norm_set elems) = Some b /\
+            (b = true <-> In_fam t r (norm_set elems)).
+Proof.
+  intros t r elems W V.
+  assert (L : rk r < S (length t)) by (apply rk_valid in V; lia).
+  destruct (contains_total _ t r (norm_set elems) W V L) as [b H].
+  exists b. split; [exact H | exact (contains_ok _ _ _ _ _ W V H)].
+Qed.
+
+(* iteration lists exactly the members *)
+Theorem C06_iter : forall t r, wf t -> valid t r ->
+  exists l, iter_f (S (length t)) t r = Some l /\ forall s, In s l <-> In_fam t r s.
+Proof.
+  intros t r W V. assert (L : rk r < S (length t)) by (apply rk_valid in V; lia).
+  destruct (iter_total _ t r W V L) as [l H]. exists l. split; [exact H | exact (proj1 (iter_ok _ _ _ _ W V H))].
+Qed.
+
+(* the standalone API *)
+Theorem C06_standalone_union : forall x y, zwf x -> zwf y ->
+  exists z, z_union x y = Some z /\ zwf z /\ forall s, zmem z s <-> zmem x s \/ zmem y s.
+Proof. exact z_union_ok. Qed.
+Theorem C06_standalone_intersection : forall x y, zwf x -> zwf y ->
+  exists z, z_inter x y = Some z /\ zwf z /\ forall s, zmem z s <-> zmem x s /\ zmem y s.
+Proof. exact z_inter_ok. Qed.
+Theorem C06_standalone_difference : forall x y, zwf x -> zwf y ->
+  exists z, z_diff x y = Some z /\ zwf z /\ forall s, zmem z s <-> zmem x s /\ ~ zmem y s.
+Proof. exact z_diff_ok. Qed.
+Theorem C06_standalone_extend_optional : forall x v, zwf x ->
+  exists z, z_pwo x v = Some z /\ zwf z /\ forall s, zmem z s <-> PW v (zmem x) s.
+Proof. exact z_pwo_ok. Qed.
+Theorem C06_standalone_from_set : forall l, zwf (z_from_set l) /\ forall s, zmem (z_from_set l) s <-> s = norm_set l.
+Proof. exact z_from_set_ok. Qed.
+Theorem C06_standalone_singleton : forall v, zwf (z_single v) /\ forall s, zmem (z_single v) s <-> s = [v].
+Proof. exact z_single_ok. Qed.
+(* Not proved: Zdd::product (product_f). Its denotation { a ∪ b } needs a merge
+   of ascending lists; it is covered by the correspondence check and the explicit-set
+   oracle only, and C06's level_note says so. *)
+
+(* non-vacuity: a concrete sequence whose explicit semantics is defined and which
+   exercises difference with a smaller left top variable, pwo, gc *)
+Example C06_sequence_defined :
+  exists fs', spec_run [] [OFromSet [1;2]%N; OFromSet [2]%N; ODiff 0 1; OPwo 2 0%N; OUnion 3 1; OGc [4;0]] = Some fs'.
+Proof. eexists. reflexivity. Qed.
+
+(* ------------------------------------------------------------------ C07 *)
+
+(* Two refs of one well-formed table that denote the same family are the same ref. *)
+Theorem C07_canonical : forall t r1 r2, wf t -> valid t r1 -> valid t r2 ->
+  (forall s, In_fam t r1 s <-> In_fam t r2 s) -> r1 = r2.
+Proof. intros t r1 r2 W V1 V2 E. exact (canonical t W (rk r1 + rk r2) r1 r2 (le_n _) V1 V2 E). Qed.
+
+(* What well-formedness says about every stored node: reduced (include-branch not
+   empty), children older, variables strictly increasing along both branches, and
+   no triple stored twice. *)
+Theorem C07_wf_meaning : forall t, wf t ->
+  (forall i n, nth_error t i = Some n ->
+     nhi n <> REmpty /\ rlt (nlo n) i /\ rlt (nhi n) i /\ vgt t (nvar n) (nlo n) /\ vgt t (nvar n) (nhi n))
+  /\ NoDup t.
+Proof. intros t W. split; [exact (wf_nodes t W) | exact (wf_nodup t W)]. Qed.
+
+(* Every arena reachable by any operation sequence is well-formed, and handles
+   denoting the same explicit family are equal. *)
+Theorem C07_reachable_canonical : forall ops ar hs out,
+  aruns (arena0, []) ops [] = Some (ar, hs, out) ->
+  wf (atable ar) /\
+  forall i j hi hj, nth_error hs i = Some hi -> nth_error hs j = Some hj ->
+    (forall s, In_fam (atable ar) hi s <-> In_fam (atable ar) hj s) -> hi = hj.
+Proof.
+  intros ops ar hs out H.
+  destruct (aruns_reachable ops arena0 [] [] [] ar hs out AInv0 (Forall2_nil _) H) as [A [fs' [_ R]]].
+  split; [exact (ai_wf _ A)|].
+  intros i j hi hj Hi Hj E.
+  pose proof (Rel_valid _ _ _ R) as V. rewrite Forall_forall in V.
+  apply (canonical _ (ai_wf _ A) (rk hi + rk hj) hi hj (le_n _)); [| |exact E].
+  - apply V. eapply nth_error_In; eauto.
+  - apply V. eapply nth_error_In; eauto.
+Qed.
+
+(* Garbage collection: succeeds on valid live handles, yields a well-formed arena
+   with empty caches, and the returned handles denote exactly what the live ones did. *)
+Theorem C07_gc : forall ar live, AInv ar -> Forall (valid (atable ar)) live ->
+  exists ar' rs, a_gc ar live = Some (ar', rs) /\ AInv ar' /\
+    Forall2 (fun r r' => valid (atable ar') r' /\ forall s, In_fam (atable ar') r' s <-> In_fam (atable ar) r s) live rs.
+Proof. exact a_gc_ok. Qed.
+
+(* Iteration yields each member once, each in strictly ascending order. *)
+Theorem C07_iter_once_ascending : forall t r l, wf t -> valid t r -> iter_f (S (length t)) t r = Some l ->
+  NoDup l /\ Forall (StronglySorted N.lt) l /\ forall s, In s l <-> In_fam t r s.
+Proof.
+  intros t r l W V H. destruct (iter_ok _ _ _ _ W V H) as [S N].
+  split; [exact N|]. split; [|exact S].
+  apply Forall_forall. intros s I. apply S in I. eapply members_sorted; eauto.
+Qed.
